@@ -206,11 +206,13 @@ func (i *Inserter) ingestTableFromBlocks(columns []string, pk []uint32) ([]byte,
 	if err != nil {
 		return nil, err
 	}
-	sum, err := objects.SaveTable(i.db, buf.Bytes())
-	if err != nil {
-		return nil, err
-	}
-	i.logger.Info("saved table", "sum", sum)
+	// The table object is saved last: a table that exists in the store must
+	// always come with its index (and profile), even if the process dies or
+	// a write fails half way.
+	tblBytes := make([]byte, buf.Len())
+	copy(tblBytes, buf.Bytes())
+	sumArr := meow.Checksum(0, tblBytes)
+	sum := sumArr[:]
 
 	// write and save table index
 	buf.Reset()
@@ -237,6 +239,12 @@ func (i *Inserter) ingestTableFromBlocks(columns []string, pk []uint32) ([]byte,
 			return nil, err
 		}
 	}
+
+	sum, err = objects.SaveTable(i.db, tblBytes)
+	if err != nil {
+		return nil, err
+	}
+	i.logger.Info("saved table", "sum", sum)
 
 	return sum, nil
 }
